@@ -51,11 +51,16 @@ type World struct {
 	RevFail     map[string]bool
 	AttachedIDs map[int]bool
 	FrontUp     bool
+	// Gate[addr], when set, makes Factory.Create(addr) announce itself on Entered and wait until
+	// the channel is closed (the controller calls Create outside its lock)
+	Gate    map[string]chan struct{}
+	Entered chan string
 }
 
 func NewWorld() *World {
 	return &World{Script: map[string]string{}, Reps: map[string]*Rep{}, Backends: map[string]*Backend{},
-		NoCreate: map[string]bool{}, NoSignal: map[string]bool{}, Dead: map[string]bool{}}
+		NoCreate: map[string]bool{}, NoSignal: map[string]bool{}, Dead: map[string]bool{},
+		Gate: map[string]chan struct{}{}, Entered: make(chan string, 16)}
 }
 
 func (w *World) log(addr, m string) string {
@@ -311,12 +316,31 @@ func (b *Backend) StopMonitoring() {
 	b.w.mu.Unlock()
 }
 
+// SetGate installs (or with nil removes) the gate of Factory.Create for addr.
+func (w *World) SetGate(addr string, g chan struct{}) {
+	w.mu.Lock()
+	defer w.mu.Unlock()
+	if g == nil {
+		delete(w.Gate, addr)
+	} else {
+		w.Gate[addr] = g
+	}
+}
+
 // ---- Factory ---------------------------------------------------------------
 
 type Factory struct{ W *World }
 
 func (f *Factory) Create(address string) (types.Backend, error) {
 	f.W.log(address, "Create")
+	f.W.mu.Lock()
+	g := f.W.Gate[address]
+	delete(f.W.Gate, address) // one call only: the AddReplica the harness has just started
+	f.W.mu.Unlock()
+	if g != nil {
+		f.W.Entered <- address
+		<-g
+	}
 	if f.W.NoCreate[address] {
 		return nil, fmt.Errorf("scripted create failure")
 	}
